@@ -3,7 +3,7 @@
 stdin: {"fixws": [text...], "wrap": [[text,width,offset|null,indent]...], "rst": [[text,width,indent,nl|null]...],
         "tw": [[text,width,initial_indent,subsequent_indent]...], "doc": [{"leading":..,"trailing":..,"detached":[..]}...]}
 stdout (last line): the same keys with results; an exception is {"err": ClassName}."""
-import json, sys, textwrap
+import json, signal, sys, textwrap
 from gapic.generator.formatter import fix_whitespace
 from gapic.utils.lines import wrap
 from gapic.utils.rst import rst
@@ -11,11 +11,30 @@ from gapic.schema import metadata
 from google.protobuf import descriptor_pb2
 
 
+class CallTimeout(Exception):
+    pass
+
+
+def _alarm(signum, frame):
+    raise CallTimeout()
+
+
+signal.signal(signal.SIGALRM, _alarm)
+_timeouts = [0]
+
+
 def guard(f, *a, **k):
+    """One call of the implementation; an exception or a call that does not return within 5 s is an observation."""
+    signal.setitimer(signal.ITIMER_REAL, 5.0 if _timeouts[0] < 3 else 0.3)   # after three hangs stop waiting long
     try:
         return {"ok": f(*a, **k)}
+    except CallTimeout:
+        _timeouts[0] += 1
+        return {"err": "Timeout"}
     except Exception as e:  # noqa
         return {"err": type(e).__name__}
+    finally:
+        signal.setitimer(signal.ITIMER_REAL, 0)
 
 
 def fw(text):
